@@ -485,3 +485,14 @@ def x03(run):
     trace, _ = run.exec("X03")
     run.validate("Trace_AppData", trace)
     return _growth_finish(run, assumptions=["filepath.Join and the current user's home directory are environment facts"])
+
+
+@prop("X04", "Trace_CertGen")
+def x04(run):
+    """certgen.go: the self-signed TLS certificate pair (names, addresses, validity, key usage, key match)."""
+    run.build()
+    trace, _ = run.exec("X04")
+    run.validate("Trace_CertGen", trace)
+    return _growth_finish(run, assumptions=["the clock is bracketed by the harness (now0 <= time.Now() in the call <= now1)",
+                                            "host name, interface addresses, net.SplitHostPort and net.ParseIP are environment facts",
+                                            "certificate fields are read back with crypto/x509 (trusted parser)"])
